@@ -172,6 +172,20 @@ def stage_mc(run, st):
     log('[mc %s] %d distinct / %d generated states' % (st['name'], d, g))
 
 
+def stage_mc_neg(run, st):
+    """Vacuity guard: the named deviation (as-built discipline) MUST violate the invariant, otherwise the property is not exercised by the model."""
+    wd = run.sub('mcneg-' + st['name'])
+    write_cfg(os.path.join(wd, 'mc.cfg'), consts=st.get('consts'), subst=st.get('subst'), invariants=st.get('invariants', ()))
+    out, rc = tlc(run, wd, st['module'] + '.tla', 'mc.cfg', workers=st.get('workers', 4), xmx='4g', timeout=600)
+    want = 'Invariant %s is violated' % st['expect']
+    if want not in out:
+        raise Infra('the deviation model %s no longer violates %s (vacuous model?):\n%s' % (st['name'], st['expect'], out[-2000:]))
+    d, g = tlc_counts(out)
+    run.states += d
+    run.transitions += g
+    log('[mc-neg %s] counterexample for %s found as expected' % (st['name'], st['expect']))
+
+
 def extract_cases(out, path, limit=None, sample=None, seed=0):
     seen = set()
     pool = None
@@ -280,7 +294,58 @@ def run_harness(binp, cases, trace, nodedup=False, timeout=1800, env=None):
     return p.returncode, stats, p.stderr
 
 
+def validate_lin(run, wd, trace_module, trace_file, props):
+    """Linearizability validation: accepted iff TLC consumes the trace to its end on SOME choice of Lin points.
+    A rejection is reported at the high-water line; validation then resumes at the next reset."""
+    lines = open(trace_file).read().splitlines()
+    total = len(lines)
+    mism = []
+    base = 0
+    part = 0
+    while base < total:
+        part += 1
+        seg = lines[base:]
+        fn = '%s.p%d' % (os.path.basename(trace_file), part)
+        open(os.path.join(wd, fn), 'w').write('\n'.join(seg) + '\n')
+        cfgname = 'tv-%s.cfg' % fn
+        write_cfg(os.path.join(wd, cfgname), consts={'File': tla_str(fn), 'Props': tla_set(props)}, extra='POSTCONDITION HighWater')
+        out, rc = tlc(run, wd, trace_module + '.tla', cfgname, workers=1, xmx='3g', timeout=3000)
+        for line in out.splitlines():
+            if line.startswith('"MISMATCH '):
+                m = json.loads(json.loads(line).split(' ', 1)[1])
+                m['line'] += base
+                if m['info'] and m['info'][0] == 'fault':
+                    m['info'] = m['info'][:2] + [str(m['info'][2])[:600]]
+                mism.append(m)
+        if ('"TRACE-END %d"' % len(seg)) in out:
+            break
+        hm = re.search(r'"HIGHWATER (\d+)"', out)
+        if not hm:
+            raise Infra('linearizability check produced no high-water mark:\n' + out[-3000:])
+        hw = int(hm.group(1))          # first line (1-based, in seg) that no behaviour could consume
+        ev = {}
+        try:
+            ev = json.loads(seg[hw - 1])
+        except Exception:
+            pass
+        o = ev.get('o', {})
+        for pid in props:
+            mism.append({'id': pid, 'line': base + hw, 'info': ['not linearizable', ev.get('ev', ''), o.get('op', ''), o.get('inst', ''),
+                                                            json.dumps(ev)[:700]]})
+        nxt = None
+        for j in range(hw, len(seg)):
+            if seg[j].startswith('{"ev":"reset"'):
+                nxt = j
+                break
+        if nxt is None:
+            break
+        base += nxt
+    return mism, total
+
+
 def validate_shard(run, wd, trace_module, trace_file, props, workers=1, deque=False):
+    if trace_module == 'Trace_Lin':
+        return validate_lin(run, wd, trace_module, trace_file, props)
     cfgname = 'tv-%s.cfg' % os.path.basename(trace_file)
     write_cfg(os.path.join(wd, cfgname), consts={'File': tla_str(os.path.basename(trace_file)), 'Props': tla_set(props)})
     out, rc = tlc(run, wd, trace_module + '.tla', cfgname, workers=workers, xmx='3g', timeout=3000, deque=deque)
@@ -301,7 +366,7 @@ def exec_and_validate(run, gen, st):
     """Replay cases on the real code (sharded), validate every trace with TLC (sharded)."""
     wd = run.sub('x-' + gen['name'])
     binp = build_harness(run, race=st.get('race', False))
-    k = min(NCPU, max(1, gen['n'] // st.get('min_per_shard', 20)))
+    k = min(st.get('max_shards', NCPU), max(1, gen['n'] // st.get('min_per_shard', 20)))
     shards = shard_cases(gen, wd, k)
     tm = st['trace']
     props = st.get('props') or [run.prop]
@@ -408,8 +473,11 @@ def replay_file(run, cand, outdir):
 
 
 def mismatch_key(m):
-    """What identifies 'the same disagreement' when a replay is re-validated: property id + diagnostic class + stable info."""
+    """What identifies 'the same disagreement' when a replay is re-validated: property id + diagnostic class + stable info.
+    Concurrent histories differ from run to run, so for them the class (fault kind / not linearizable + op kind) is the key."""
     info = m.get('info', [])
+    if info and info[0] in ('fault', 'not linearizable'):
+        return (m['id'], json.dumps(info[:2], sort_keys=True))
     return (m['id'], json.dumps(info, sort_keys=True))
 
 
@@ -489,6 +557,8 @@ def run_check(prop, tier, seed):
             kind = st['kind']
             if kind == 'mc':
                 stage_mc(run, st)
+            elif kind == 'mc_neg':
+                stage_mc_neg(run, st)
             elif kind == 'gen':
                 g = stage_gen(run, st)
                 exec_and_validate(run, g, st)
